@@ -178,6 +178,100 @@ class ExactCollections:
             return [("ok", NONE, state.set(key, state.get(key) + (value,)))]
         return super().yield_(node, value, state)
 
+    # ---- record objects: instances of small data classes of the analysed package ----------------------------------------
+    def record_class(self, cls):
+        """'plain' | 'namedtuple' | 'dataclass' for a class this model instantiates exactly, else None: no methods
+        beyond __init__ (and dunders that only read), no base class that carries behaviour."""
+        bases = [b.split(".")[-1] for b in getattr(cls, "bases", [])]
+        decos = " ".join(ast.unparse(d) for d in cls.node.decorator_list)
+        others = [m for m in cls.methods if m not in ("__init__", "__repr__", "__str__", "__eq__", "__hash__")]
+        if others or len(cls.node.body) > 12:
+            return None
+        if "NamedTuple" in bases and len(bases) == 1:
+            return "namedtuple"
+        if "dataclass" in decos and not bases:
+            return "dataclass"
+        if not bases or bases == ["object"]:
+            return "plain" if "__init__" in cls.methods else None
+        return None
+
+    def _record_fields(self, cls):
+        out = []
+        for st in cls.node.body:
+            if isinstance(st, ast.AnnAssign) and isinstance(st.target, ast.Name):
+                out.append((st.target.id, st.value))
+        return out
+
+    def instantiate(self, node, cls, args, kwargs, state):
+        kind = self.record_class(cls)
+        if kind is None or any(isinstance(a, ast.Starred) for a in node.args) or any(k.startswith("**") for k in kwargs):
+            return None
+        ref, st = self.alloc(state, node, "obj:" + cls.name, DictV(()))
+        if ref is TOP:
+            return [("ok", TOP, self.mark_imprecise(state, node))]
+        if kind in ("namedtuple", "dataclass"):
+            fields = self._record_fields(cls)
+            vals = {}
+            for (fname, dflt), a in zip(fields, args):
+                vals[fname] = a
+            for k, v in kwargs.items():
+                vals[k] = v
+            d = DictV(())
+            for fname, dflt in fields:
+                if fname not in vals:
+                    if dflt is None or not isinstance(dflt, ast.Constant):
+                        return [("ok", TOP, self.mark_imprecise(state, node))]
+                    vals[fname] = Const(dflt.value)
+                d = dict_set(d, Const(fname), vals[fname])
+            if len(args) > len(fields) or any(k not in dict(fields) for k in kwargs):
+                return [("exc", Exc(ORD, "TypeError", node.lineno), state)]
+            return [("ok", ref, self.put(st, ref, d))]
+        # a plain class: its __init__ runs with `self` bound to the new object
+        init = cls.methods["__init__"]
+        if self._depth >= self.max_inline_depth:
+            return [("ok", TOP, self.mark_imprecise(state, node))]
+        bound = self.bind_params(init, args, kwargs)
+        pname = init.node.args.args[0].arg if init.node.args.args else "self"
+        bound[pname] = ref
+        env = {k: v for k, v in st.d.items() if self.is_global_key(k)}
+        env.update(bound)
+        from .paths import Interp as _Interp
+
+        self._depth += 1
+        self.frames.append({"fn": init, "site": node, "bound": bound})
+        saved = self.fn
+        self.fn = init
+        try:
+            outs = _Interp(self, init.node, self.prog).run(Env(env))
+        finally:
+            self.fn = saved
+            self.frames.pop()
+            self._depth -= 1
+        locals_ = {k: v for k, v in st.d.items() if not self.is_global_key(k)}
+        res = []
+        for kind_, val in (("ret", ref), ("exc", None)):
+            for s2, v2, t2 in outs.of(kind_):
+                md = dict(locals_)
+                md.update({k: x for k, x in s2.d.items() if self.is_global_key(k)})
+                res.append(("ok", ref, Env(md)) if kind_ == "ret" else ("exc", v2, Env(md)))
+        return res
+
+    def record_load(self, ref, attr, state):
+        """-> (value, definitely missing)"""
+        c = content(ref, state)
+        if c is None:
+            return TOP, False
+        r = dict_get(c, Const(attr))
+        if r[0] == "hit":
+            return r[1], False
+        return (TOP, False) if r[0] == "unknown" else (NOVALUE, True)
+
+    def record_store(self, ref, attr, value, state):
+        c = content(ref, state)
+        if c is None:
+            return state
+        return self.put(state, ref, dict_set(c, Const(attr), value))
+
     def _apply_key(self, node, keyf, x, state):
         """A key function (lambda, operator.itemgetter) applied to one element -> (value, state) or None."""
         if isinstance(keyf, ItemGetter):
@@ -639,6 +733,10 @@ class ExactCollections:
                 if len(args) == 2:
                     return ok(args[1])
                 return [("exc", Exc(ORD, "StopIteration", node.lineno), state)]
+            if f.id == "bool" and len(args) == 1:
+                t_ = self.truth(args[0], state)
+                if t_ is not None:
+                    return ok(Const(t_))
             if f.id == "iter" and len(args) == 1:
                 seq = self._seq(args[0], state)
                 if seq is not None:
@@ -941,6 +1039,8 @@ def lift_value(x):
     """Python value -> abstract value (lists and tuples become TupleV)."""
     if isinstance(x, (list, tuple)):
         return TupleV(tuple(lift_value(y) for y in x))
+    if isinstance(x, dict):
+        return DictV(tuple((lift_value(k), lift_value(v)) for k, v in x.items()))
     return Const(x)
 
 
